@@ -105,11 +105,13 @@ func (s *scanner) ScanToken() (Object, error) {
 			s.SkipByte()
 			return Operator(">>"), nil
 		default:
-			err := s.err
-			if err == nil {
-				err = &postScriptError{eSyntaxerror, "unexpected '>'"}
+			// s.err may already hold the io.EOF which arrived together with
+			// the last bytes of the input: only a read error which prevented
+			// us from seeing the next byte takes precedence.
+			if len(bb) < 2 && s.err != nil && s.err != io.EOF {
+				return nil, s.err
 			}
-			return nil, err
+			return nil, &postScriptError{eSyntaxerror, "unexpected '>'"}
 		}
 	case '/':
 		var name []byte
